@@ -48,6 +48,15 @@ func New(e *sim.Env, kind Kind, c *sim.Case) (*Backend, error) {
 	return b, nil
 }
 
+// SetServerError makes the Redis server answer every command with an error reply (""
+// ends it): the server is up and reachable but refuses to work (loading, out of memory,
+// misconfigured). No effect on the in-memory backend.
+func (b *Backend) SetServerError(msg string) {
+	if b.redis != nil {
+		b.redis.m.SetError(msg)
+	}
+}
+
 // Client returns the storage handle of party i.
 func (b *Backend) Client(i int) kvs.Storage {
 	if b.Kind == InMem {
